@@ -20,3 +20,14 @@ func VerifSections(c *Chunker, doc *model.Document) []*Section {
 	}
 	return out
 }
+
+// VerifSentenceEnds reports, for every rune of text, whether
+// splitIntoSentencesWithPositions ends a sentence there.
+func VerifSentenceEnds(text string) []bool {
+	runes := []rune(text)
+	out := make([]bool, len(runes))
+	for i, r := range runes {
+		out[i] = (r == '.' || r == '!' || r == '?') && isSentenceEndRune(runes, i)
+	}
+	return out
+}
